@@ -88,28 +88,36 @@ func SendMissingStz(lastSent int, s Sender, uaq *stanza.UnAckQueue) error {
 		return nil
 	}
 	uaq.RWMutex.Lock()
+	defer uaq.RWMutex.Unlock()
 	if len(uaq.Uslice) <= 0 {
-		uaq.RWMutex.Unlock()
 		return nil
 	}
-	last := uaq.Uslice[len(uaq.Uslice)-1]
-	if last.Id > lastSent {
-		// Remove sent stanzas from the queue
-		uaq.PopN(lastSent - last.Id)
-		// Re-send non acknowledged stanzas
-		for _, elt := range uaq.PopN(len(uaq.Uslice)) {
-			eltStz := elt.(*stanza.UnAckedStz)
-			err := s.SendRaw(eltStz.Stz)
-			if err != nil {
-				return err
-			}
-
-		}
-		// Ask for updates on stanzas we just sent to the entity. Not sure I should leave this. Maybe let users call ack again by themselves ?
-		s.Send(stanza.SMRequest{})
+	// Sequence numbers count the stanzas sent on the session: the server has handled every
+	// stanza numbered up to lastSent. Remove those from the queue.
+	first := uaq.Uslice[0]
+	uaq.PopN(lastSent - first.Id + 1)
+	if len(uaq.Uslice) <= 0 {
+		return nil
 	}
-	uaq.RWMutex.Unlock()
+	// Re-send the stanzas that are still unacknowledged. They stay in the queue, under
+	// their original sequence numbers, until the server acknowledges them.
+	for _, elt := range uaq.PeekN(len(uaq.Uslice)) {
+		eltStz := elt.(*stanza.UnAckedStz)
+		if err := resendRaw(s, eltStz.Stz); err != nil {
+			return err
+		}
+	}
+	// Ask for updates on stanzas we just sent to the entity. Not sure I should leave this. Maybe let users call ack again by themselves ?
+	s.Send(stanza.SMRequest{})
 	return nil
+}
+
+// resendRaw writes an already queued stanza again without queueing it a second time.
+func resendRaw(s Sender, stz string) error {
+	if c, ok := s.(*Client); ok && c.transport != nil {
+		return c.sendWithWriter(c.transport, []byte(stz))
+	}
+	return s.SendRaw(stz)
 }
 
 func iqNotImplemented(s Sender, iq *stanza.IQ) {
